@@ -18,7 +18,7 @@ extern "C" const char *__asan_default_options() {
     return "exitcode=99:detect_leaks=0:allocator_may_return_null=1:handle_abort=1:"
            "detect_stack_use_after_return=0:malloc_context_size=6:print_legend=0:"
            "print_full_thread_history=0:detect_odr_violation=0:max_free_fill_size=256:"
-           "free_fill_byte=223:max_malloc_fill_size=256:malloc_fill_byte=190";
+           "free_fill_byte=223:max_malloc_fill_size=32768:malloc_fill_byte=190";
 }
 extern "C" const char *__ubsan_default_options() {
     return "print_stacktrace=1:halt_on_error=1:exitcode=98";
